@@ -127,7 +127,14 @@ TPick == phase = "pick" /\ \E i \in 1..Len(TraceEvents) : cur' = i /\ phase' = "
 \* The signature BYTES are implementation-defined (the nonce / forged-scalar derivation is transcribed only to predict
 \* them): the property promises a signature that verifies.  Observed events are judged by that post-condition.
 Soft(ev) == IF ev.e = "WlSign" THEN { "sig" } ELSE { }
-Post(ev) == (ev.e = "WlSign" /\ ev.out.ret = 1) => SignSound(ev.in, ev.out)
+\* "signing with the CORRECT secrets yields a signature that verifies" (the API does not check that the secrets belong to
+\* the member at `index`; with foreign secrets it returns 1 and a signature that does not verify)
+SecretsCorrect(i) ==
+  LET idx == i.index + 1  W == ParsePub(i.sub)[2] IN
+  /\ idx <= Len(i.ons)
+  /\ PMulG(FromBytesBE(i.onsec)) = ParsePub(i.ons[idx])[2]
+  /\ PMulG(FromBytesBE(i.sumsec)) = PAdd(ParsePub(i.offs[idx])[2], W)
+Post(ev) == (ev.e = "WlSign" /\ ev.out.ret = 1 /\ SecretsCorrect(ev.in)) => SignSound(ev.in, ev.out)
 Judge(ev) == LET exp == Out(ev) IN
   /\ \A k \in (DOMAIN exp) \ Soft(ev) : k \in DOMAIN ev.out /\ ev.out[k] = exp[k]
   /\ Post(ev)
